@@ -41,13 +41,16 @@ Pick == LET ok   == {c \in Calls : Useful(c) /\ Fits(c) /\ ArchiveOK(c)}
             all  == {c \in Calls : Fits(c) /\ ArchiveOK(c)}
             near == {c \in all : ~Useful(c) /\ c.op \notin Observers /\ Near(c.p) /\ (c.op = "Rename" => Near(c.q))}
             k    == RandomElement(1..100)
+            \* renames into the own subtree, at any depth below (must be refused)
+            self == {c \in all : c.op = "Rename" /\ c.p \in DOMAIN ref /\ IsProperPrefix(c.p, c.q) /\ Near(c.q)}
             hc   == HandleCalls
             hcok == {c \in hc : Outcome(c).res = "ok"}
             \* calls that hit the path of an open handle or one of its ancestors (rename / remove / chmod / rewrite it while open)
             touch == {c \in ok : \E h \in DOMAIN hs : IsPrefix0(c.p, hs[h].path)}
         IN IF hc # {} /\ RandomElement(1..100) <= HBias
            THEN {RandomElement(IF hcok # {} /\ RandomElement(1..100) <= 85 THEN hcok ELSE hc)}
-           ELSE IF touch # {} /\ RandomElement(1..100) <= HBias THEN {RandomElement(touch)} ELSE
+           ELSE IF touch # {} /\ RandomElement(1..100) <= HBias THEN {RandomElement(touch)}
+           ELSE IF self # {} /\ RandomElement(1..100) <= 4 THEN {RandomElement(self)} ELSE
            {RandomElement(IF k <= OkBias /\ ok # {} THEN ok
                           ELSE IF k <= OkBias + (100 - OkBias) \div 2 /\ near # {} THEN near ELSE all)}
 
